@@ -50,6 +50,9 @@ class Check:
 
     def add(self, sid, fn, **kw):
         params = kw.pop("params", None)
+        if sid in getattr(self, "_sids", ()):
+            return  # same name = same scenario (results are keyed by name)
+        self.__dict__.setdefault("_sids", set()).add(sid)
         self.shapes.append(Shape(sid, fn, params, **kw))
 
 
@@ -451,6 +454,11 @@ def finish(check):
     print("%s %s: shapes=%d leaves=%d pass=%d assumed=%d viol=%d known=%d inconclusive=%d queries=%d solver=%.1fs replays=%d wall=%.1fs" % (
         check.pid, check.tier, len(check.shapes), states, tot["P"], tot["A"], len(violations), len(known_seen),
         len(inconclusive), nq, st, replays, wall))
+    if os.environ.get("VERIF_DEBUG"):
+        for (shape, rec, crec) in violations:
+            print("DEBUG-VIOL %s | %s" % (shape.sid, str(rec.get("msg"))[:1500]))
+        for kind, text in inconclusive:
+            print("DEBUG-INC (%s) %s" % (kind, text[:1500].replace("\n", " \\ ")))
     if violations:
         return 1
     if inconclusive:
